@@ -103,8 +103,8 @@ with can_complete_b (b : block) : bool :=
 with can_complete_hs (hs : handlers) : bool :=
   match hs with HNil => false | HCons h r => can_complete_b h || can_complete_hs r end.
 
-(* upper_ok: no break/continue, no loop else clause, no `while True`, no try-finally, and no
-   dead code: nothing follows a statement that cannot complete normally, and a try body that
+(* upper_ok: no break/continue, no loop else clause, no `while True`, no try-finally, a try body is never
+   empty (it is not in Python), and no dead code: nothing follows a statement that cannot complete normally, and a try body that
    cannot complete normally has no else clause *)
 Fixpoint upper_ok_s (s : stmt) : bool :=
   match s with
@@ -113,7 +113,7 @@ Fixpoint upper_ok_s (s : stmt) : bool :=
   | SLoop forever b e => negb forever && is_nil e && upper_ok_b b
   | SWith _ b => upper_ok_b b
   | STry b hs e f => upper_ok_b b && upper_ok_hs hs && upper_ok_b e && is_nil f
-                     && (can_complete_b b || is_nil e)
+                     && (can_complete_b b || is_nil e) && negb (is_nil b)
   | _ => true
   end
 with upper_ok_b (b : block) : bool :=
